@@ -38,6 +38,13 @@ Matrix(o) == o.fed
 Empty(o) == o.fed = {}
 Val(o) == [lgK |-> o.lgK, fed |-> o.fed, merged |-> o.merged]
 
+\* ---- documented derivations from the coupon count (cpc_sketch.hpp: "these sketches always obey the following strict mapping
+\* between the flavor of a sketch and the number of coupons"; window_offset "derivable from num_coupons").  Every reader of an
+\* image derives flavor and offset from (lgK, C) alone, so a live sketch must agree with them at every count. ----
+DocFlavor(lgK, c) == LET k == Pow2(lgK) IN     \* 0 EMPTY, 1 SPARSE, 2 HYBRID, 3 PINNED, 4 SLIDING
+  IF c = 0 THEN 0 ELSE IF 32 * c < 3 * k THEN 1 ELSE IF 2 * c < k THEN 2 ELSE IF 8 * c < 27 * k THEN 3 ELSE 4
+DocOffset(lgK, c) == LET k == Pow2(lgK) IN IF 8 * c < 19 * k THEN 0 ELSE (8 * c - 19 * k) \div (8 * k)
+
 \* ---- union definition: fold rows modulo the result K, then OR ----
 Fold(S, lgK) == {Cell(Row(x) % Pow2(lgK), Col(x)) : x \in S}
 MinOf(S) == CHOOSE m \in S : \A y \in S : m <= y
